@@ -242,3 +242,29 @@ CHECKS['C12'] = dict(
     min_counters={'quick': {'enc_pairs': 50000, 'enc_reset_equal': 2500, 'dec_pairs': 50000, 'dec_reset_equal': 2500, 'ms_enc_pairs': 5000},
                   'thorough': {'enc_pairs': 1000000}},
 )
+
+CHECKS['C10'] = dict(
+    level='exploration',
+    rule="layout: random explicit layouts (channels -1..300, streams, coupled, mapping tables with duplicates / 255 / out-of-range entries) "
+         "against the documented acceptance rules for decoder and encoder; mapping families 0/1/2/3/255 (and unknown ones) with legal and "
+         "illegal channel counts against the tables re-typed from RFC 7845 5.1.1.2 and the RFC 8486 count rule. dec: random decoder layouts "
+         "(1..8 streams, 1..12 output channels incl. muted and duplicated) fed packets assembled from independent per-stream encoders "
+         "(self-delimited + standard), received / lost / FEC / corrupted, through float, int16 and int24 multistream decoders and stand-alone "
+         "twin decoders per stream. enc: surround families 0/1/255 and ambisonics family 2 encoders, packet structure, LFE stream, twins. "
+         "matrix: all five orders x {with, without non-diegetic pair}: identity, export, single-channel round trip. Distinct = (shape classes / "
+         "streams, coupled, channels, call kind, frame size, rates / family, channels).",
+    assumptions=COMMON_ASSUME + ["oracles/rfc_framing.h decides stream boundaries", "projection (family 3) stream counts are only required to carry every channel; RFC 8486 prescribes no stream count for it",
+                                 "round-trip level within 1.5 dB, correlation >= 0.9, separation >= 15 dB at 64 kb/s per channel (measured minima are in the evidence)"],
+    evals_counter=None,
+    runs=[
+        dict(h='h_c10.c', mode='layout', flavour='asan', n={'quick': 20000, 'thorough': 400000}),
+        dict(h='h_c10.c', mode='dec', flavour='asan', n={'quick': 800, 'thorough': 20000}),
+        dict(h='h_c10.c', mode='dec', flavour='prod', n={'quick': 1600, 'thorough': 40000}),
+        dict(h='h_c10.c', mode='dec', flavour='asan-fixed', n={'quick': 320, 'thorough': 8000}),
+        dict(h='h_c10.c', mode='enc', flavour='asan', n={'quick': 640, 'thorough': 16000}),
+        dict(h='h_c10.c', mode='matrix', flavour='prod', n={'quick': 20, 'thorough': 200}),
+    ],
+    min_nontrivial={'quick': 500, 'thorough': 1000},
+    min_counters={'quick': {'ms_channels_equal': 100000, 'layout_family_tables_ok': 1000, 'matrix_exports_equal': 20, 'projection_roundtrips_ok': 20, 'lfe_streams_checked': 300},
+                  'thorough': {'ms_channels_equal': 2000000}},
+)
